@@ -36,7 +36,7 @@ Proof. destruct l1; cbn; [auto|discriminate]. Qed.
 
 (* the value table only grows, and a defined value keeps its decoding *)
 Lemma vals_stable b te v x :
-  guards b te = [] -> aget (b_vals b) v = Some x -> aget (b_vals (bapply b te)) v = Some x.
+  guards0 b te = [] -> aget (b_vals b) v = Some x -> aget (b_vals (bapply b te)) v = Some x.
 Proof.
   intros G H. destruct te as [t e]. destruct e; cbn in *;
     try (repeat match goal with |- context [match ?d with _ => _ end] => destruct d end; cbn; assumption).
@@ -51,7 +51,7 @@ Proof.
 Qed.
 
 Lemma vinfo_stable b te v :
-  guards b te = [] -> sok_of b v = true -> vinfo_of (bapply b te) v = vinfo_of b v.
+  guards0 b te = [] -> sok_of b v = true -> vinfo_of (bapply b te) v = vinfo_of b v.
 Proof.
   intros G H. destruct (sok_defined _ _ H) as [x Hx].
   unfold vinfo_of. rewrite (vals_stable _ _ _ _ G Hx), Hx. reflexivity.
@@ -59,7 +59,7 @@ Qed.
 
 (* configurations are defined once *)
 Lemma cfgs_stable b te i c :
-  guards b te = [] -> aget (b_cfgs b) i = Some c -> aget (b_cfgs (bapply b te)) i = Some c.
+  guards0 b te = [] -> aget (b_cfgs b) i = Some c -> aget (b_cfgs (bapply b te)) i = Some c.
 Proof.
   intros G H. destruct te as [t e]. destruct e; cbn in *;
     try (repeat match goal with |- context [match ?d with _ => _ end] => destruct d end; cbn; assumption).
